@@ -185,6 +185,78 @@ theorem qd_policy_subtract_total (cfg : Cfg) (votes : Votes) (n : Nat) (prev max
   rw [h1]
   omega
 
+/-- **Policy `'subtract'`, one withdrawal.**  Every successful pass of the withdrawal loop looks at the margins
+    `v − q·(seats + prev)` of the current holders, finds the smallest margin `m`, and
+    * if exactly one holder has it, takes one seat from that holder (its entry disappears when it drops to 0);
+    * if several holders share it, takes one seat from each of them and hands `k − 1` seats to a `Tie` object
+      naming them — or, if that `Tie` already holds seats, takes one seat from the `Tie`.
+    `L` is the list of positions in `selected` of the entries with the smallest margin (`qd_subtract_level`). -/
+theorem qd_subtract_step (votes : Votes) (q : Rat) (prev : IMap) (sel sel' : Sel)
+    (h : subtractStep votes q prev sel = .ok sel') :
+    ∃ m, (∃ e ∈ sel, margin votes q prev e = m) ∧ (∀ e ∈ sel, m ≤ margin votes q prev e) ∧
+      (∀ i, i ∈ level (subRemainders votes q prev sel) (-m) ↔
+          ∃ e, sel[i]? = some e ∧ margin votes q prev e = m) ∧
+      ((level (subRemainders votes q prev sel) (-m)).length = 1 →
+          ∃ i, level (subRemainders votes q prev sel) (-m) = [i] ∧ sel' = decK sel (keyAt sel i)) ∧
+      ((level (subRemainders votes q prev sel) (-m)).length ≠ 1 →
+          ∃ cs, (level (subRemainders votes q prev sel) (-m)).map (keyAt sel) = cs.map Key.cand ∧
+            sel' = if hasK sel (mkTie cs) then decK sel (mkTie cs)
+              else setK (cs.foldl (fun acc c => decK acc (.cand c)) sel) (mkTie cs)
+                (getK (cs.foldl (fun acc c => decK acc (.cand c)) sel) (mkTie cs) 0 + (cs.length : Int) - 1)) := by
+  have hne : sel ≠ [] := by
+    intro he; subst he
+    have : subtractStep votes q prev [] = .error indexErr := rfl
+    rw [this] at h; cases h
+  obtain ⟨t, ⟨x, hx, hxt⟩, hall, hbest⟩ := getNBest_one (subRemainders votes q prev sel) (subRemainders_ne_nil hne)
+  refine ⟨-t, ?_, ?_, ?_, ?_, ?_⟩
+  · obtain ⟨e, he, hxe⟩ := mem_subRemainders.mp hx
+    refine ⟨e, List.mem_of_getElem? he, ?_⟩
+    rw [← hxt, hxe]; ring
+  · intro e he
+    obtain ⟨i, hi, hie⟩ := List.mem_iff_getElem.mp he
+    have hm : (i, - margin votes q prev e) ∈ subRemainders votes q prev sel :=
+      mem_subRemainders.mpr ⟨e, by rw [← hie]; exact List.getElem?_eq_getElem hi, rfl⟩
+    have := hall _ hm
+    simp only at this
+    linarith
+  · intro i
+    rw [neg_neg]
+    unfold level
+    simp only [List.mem_map, List.mem_filter, decide_eq_true_eq]
+    constructor
+    · rintro ⟨y, ⟨hy, hyt⟩, rfl⟩
+      obtain ⟨e, he, hye⟩ := mem_subRemainders.mp hy
+      exact ⟨e, he, by rw [← hyt, hye]; ring⟩
+    · rintro ⟨e, he, hme⟩
+      refine ⟨(i, - margin votes q prev e), ⟨mem_subRemainders.mpr ⟨e, he, rfl⟩, ?_⟩, rfl⟩
+      simp only; rw [hme]; ring
+  · rw [neg_neg]
+    intro hl
+    unfold subtractStep at h
+    rw [hbest, if_pos hl] at h
+    obtain ⟨i, hi⟩ := List.length_eq_one_iff.mp hl
+    rw [hi] at h
+    simp only [List.map_cons, List.map_nil] at h
+    injection h with h
+    exact ⟨i, hi, h.symm⟩
+  · rw [neg_neg]
+    intro hl
+    unfold subtractStep at h
+    rw [hbest, if_neg hl] at h
+    simp only at h
+    split at h
+    · cases h
+    · rename_i cs hcs
+      refine ⟨cs, mapM_candOfKey_some _ _ hcs, ?_⟩
+      split at h
+      · rename_i hk; injection h with h; rw [if_pos hk]; exact h.symm
+      · rename_i hk; injection h with h; rw [if_neg hk]; exact h.symm
+
+/-- the withdrawal loop stops with `IndexError` exactly when nobody holds a seat any more
+    (`get_n_best({}, 1)[0]`; only reachable when the previous gains alone exceed the house) -/
+theorem qd_subtract_empty (votes : Votes) (q : Rat) (prev : IMap) :
+    subtractStep votes q prev [] = .error indexErr := rfl
+
 /-! ## 3. LargestRemainder: whole quotas, then the largest exact remainders -/
 
 /-- the hypotheses under which the whole-quota stage of `LargestRemainder` is plain: a positive quota, no party's
@@ -502,6 +574,57 @@ theorem hare_quota_rule (ae : Bool) (pol : OnOver) (votes : Votes) (n : Nat) (hw
   rw [hshare]
   exact quota_rule_aux _ ae votes n hwf hq hVq hsum p hp _ hseats
 
+/-- **Droop never over-awards.**  With the Droop quota (or any quota `q > V/(n+1)`) a plain election always has a
+    plain whole-quota stage: no party's whole quotas exceed the house and their sum does not either, so none of
+    the over-award policies is ever consulted. -/
+theorem lr_plain_of_quota_gt (cfg : Cfg) (votes : Votes) (n : Nat) (hwf : WF votes [])
+    (hq : sumVals votes / ((n : Rat) + 1) < cfg.quota (sumVals votes) n) (hV : 0 ≤ sumVals votes) :
+    Plain cfg votes n [] := by
+  have hn1 : (0 : Rat) < (n : Rat) + 1 := by positivity
+  have hq0 : 0 < cfg.quota (sumVals votes) n := lt_of_le_of_lt (div_nonneg hV (le_of_lt hn1)) hq
+  generalize hqd : cfg.quota (sumVals votes) n = q at *
+  have hVq : (votes.map (·.2)).sum / q < (n : Rat) + 1 := by
+    rw [← sumVals_eq, div_lt_iff₀ hq0]
+    rw [div_lt_iff₀ hn1] at hq
+    linarith
+  have hs := sum_rems q cfg.acceptEqual votes
+  have hb := sum_unit_bounds (votes.map (fun p => p.2 / q - (wholeQ q cfg.acceptEqual p.2 : Rat)))
+    (by
+      intro x hx
+      obtain ⟨p, _, rfl⟩ := List.mem_map.mp hx
+      exact rem_bounds hq0 cfg.acceptEqual)
+  rw [hs] at hb
+  have hsum : (votes.map (fun p => wholeQ q cfg.acceptEqual p.2)).sum ≤ (n : Int) := by
+    have : (((votes.map (fun p => wholeQ q cfg.acceptEqual p.2)).sum : Int) : Rat) < (((n : Int) + 1 : Int) : Rat) := by
+      push_cast; linarith [hb.1]
+    have : (votes.map (fun p => wholeQ q cfg.acceptEqual p.2)).sum < (n : Int) + 1 := by exact_mod_cast this
+    omega
+  have h0 : sumI [] = 0 := rfl
+  have key : NoCapBinds q cfg.acceptEqual n [] [] votes ∧ totalAwarded q cfg.acceptEqual [] votes ≤ n := by
+    refine ⟨?_, ?_⟩
+    · intro p hp
+      left
+      rw [getI_nil]
+      have h1 : p.2 / q ≤ (votes.map (fun p => p.2 / q)).sum :=
+        mem_le_sum _ (by
+          intro x hx
+          obtain ⟨p', hp', rfl⟩ := List.mem_map.mp hx
+          exact div_nonneg (hwf.votes_nonneg p' hp') (le_of_lt hq0)) _ (List.mem_map.mpr ⟨p, hp, rfl⟩)
+      rw [sum_map_div] at h1
+      have h2 := (rem_bounds (v := p.2) hq0 cfg.acceptEqual).1
+      have : ((wholeQ q cfg.acceptEqual p.2 : Int) : Rat) < (((n : Int) + 1 : Int) : Rat) := by push_cast; linarith
+      have : wholeQ q cfg.acceptEqual p.2 < (n : Int) + 1 := by exact_mod_cast this
+      omega
+    · unfold totalAwarded
+      rw [totalAwarded_plain_aux hq0 _ _ hwf.votes_nonneg, h0]
+      omega
+  subst hqd
+  exact ⟨hwf, hq0, key.1, key.2⟩
+
+theorem lr_plain_droop (ae : Bool) (pol : OnOver) (votes : Votes) (n : Nat) (hwf : WF votes [])
+    (hV : 0 ≤ sumVals votes) : Plain ⟨Gen.Quota.droop, ae, pol, true⟩ votes n [] :=
+  lr_plain_of_quota_gt _ votes n hwf (quota_droop_least (sumVals votes) n hV).1 hV
+
 /-- **Hagenbach-Bischoff**: the total is `n` whenever the whole-quota stage is plain -/
 theorem lr_total_hagenbach_bischoff (ae : Bool) (pol : OnOver) (votes : Votes) (n : Nat) (hwf : WF votes [])
     (hV : 0 < sumVals votes) (hn : 1 ≤ n)
@@ -673,6 +796,27 @@ theorem qd_house_zero_division_witness :
 theorem qd_policy_error_unnamed_witness :
     quotaDistribute ⟨fun _ _ => 30, true, .error, false⟩ [(0, 60), (1, 40)] 2 [] [] = .error attrErr := by
   decide +kernel
+
+/-! ## 6. the model's recursion fuel -/
+
+/-- the overshoot recursion drops at least one party per call, so the fuel `len(votes)` given by
+    `quotaDistribute` is never exhausted: the model never answers `Model:Fuel`, for any input whatsoever -/
+theorem qd_fuel_suffices (cfg : Cfg) (votes : Votes) (n : Nat) (prev maxS : IMap) :
+    quotaDistribute cfg votes n prev maxS ≠ .error fuelErr :=
+  qdEval_no_fuel cfg _ votes n prev maxS (le_refl _)
+
+theorem lr_fuel_suffices (cfg : Cfg) (votes : Votes) (n : Nat) (prev maxS : IMap) :
+    largestRemainder cfg votes n prev maxS ≠ .error fuelErr := by
+  unfold largestRemainder
+  split
+  · rename_i e he
+    intro h; injection h with h
+    rw [h] at he
+    exact qd_fuel_suffices cfg votes n prev [] he
+  · simp only
+    split
+    · intro h; injection h with h; exact fuelErr_ne.1 h.symm
+    · simp
 
 /-! ## non-vacuity: concrete inputs meeting the hypotheses -/
 
